@@ -53,6 +53,12 @@ CLAIMED = {
          "failures, truncations and lost responses; the commit side (every committed transaction was submitted, committed once) is evaluated by the oracle",
          "the hashgraph is abstracted to the insertion outcome in this model; the commit-once statement relies on C04/C07 and is kept as a Definition",
          "Coq invariant over operation lists + pool-level correspondence + conservation oracle with fault injection"),
+ "C06": ("PARTIAL. Proved in Coq: the idle condition (busy = false iff nothing pending), a successful self-event empties the pools, the voting loop never gets "
+         "stuck in a well-formed view and decides as soon as a deciding witness exists. NOT proved: the bound on fair cycles (needs a scheduler model and the "
+         "termination argument of virtual voting). The bound is explored on real cores: arbitrary adversarial prefix (truncation, loss, silent minority < n/3), then "
+         "fair all-pairs cycles until quiescence; oracle: within 30 cycles nobody is busy and everything accepted is committed by all (measured: 1-7 cycles)",
+         "partial: runtime behaviour not exhibited by the model: timers, goroutine scheduling, random peer selection; the convergence bound is exploration only",
+         "Coq lemmas on the logic + controlled-schedule exploration with a deterministic fair suffix"),
 }
 NOT_YET = "check not built yet in this commit (work in progress; to be claimed)"
 NA = {}
